@@ -85,7 +85,9 @@ def gen_case(rng, idx):
             loads[0] = eng["bsfc"][int(rng.integers(len(eng["bsfc"])))][0]       # exactly at a given curve point
         if rng.random() < 0.3:
             loads[-1] = 0.0
-        case["powers"] = [float(np.round(l * (top if kind != "engine" else rated) * (0.9 if kind != "engine" else 1.0), 4)) for l in loads]
+        if hi > 1.0 and rng.random() < 0.7:
+            loads[0] = float(np.round(rng.uniform(1.01, hi), 3))          # overload operation, inside what the curves cover
+        case["powers"] = [float(np.round(l * (top if kind != "engine" else rated) * (0.9 if (kind != "engine" and l <= 1.0) else 1.0), 4)) for l in loads]
     elif kind == "fuel_cell_system":
         s = plants.gen_source_spec(rng, "fcs", 1, kinds=("fuel_cell_system",))
         case["spec"] = s
